@@ -14,7 +14,20 @@
  *   scan                              Scan event: whole-dictionary digest
  *   jsgf  <decode> <expect> <sid> ... decoder_set_jsgf_string("public <s> = w1 w2 ...;") [+ decode]   -> Use event
  *   align <decode> <expect> <sid> ... decoder_set_align_text("w1 w2 ...") [+ decode]                  -> Use event
+ *                                     decode = 2: decode, and do the same on a TWIN decoder whose dictionary FILE
+ *                                     holds the loaded dictionary plus every word added so far (see do_twin)
  *   end                               free the decoder
+ *
+ * Add events also carry
+ *   raw   the bytes of the phone string as handed to decoder_add_word (the specification splits it itself)
+ *   d2p   [nb, ne, ns, b, l, r]: the word-boundary context tables the search will read for the word just
+ *         added (decoder_t.d2p: ldiph_lc[first][second][*], rssid[last][second-last] through cimap/ssid,
+ *         lrdiph_rc[only][*][*]) compared, context phone by context phone, with what the model definition
+ *         itself gives for the pronunciation - bin_mdef_pid2ssid(bin_mdef_phone_id_nearest(base, left, right,
+ *         WORD_POSN_BEGIN / END / SINGLE)), the formula dict2pid_build() uses for the words of the file:
+ *         nb / ne / ns = number of contexts that DISAGREE for the first phone / last phone / only phone
+ *         (-1 = table not needed for a word of this length), (b, l, r) the first disagreeing triphone.
+ * Scan events carry d2pbad = number of words of the whole dictionary with at least one such disagreement.
  *
  * Everything logged comes from public calls / public struct fields (decoder_s and dict_s are defined in
  * installed headers).  An observation of spelling s is the tuple
@@ -36,6 +49,7 @@
 #include <soundswallower/err.h>
 #include <soundswallower/search_module.h>
 #include "vtrace.h"
+#include <unistd.h>
 
 #define MAXSP 40000
 #define MAXLINE (1 << 16)
@@ -47,6 +61,8 @@ static const char *repo;
 static int execno, n0;
 static int16 *audio;
 static size_t naudio;
+static const char *tracepath;
+static char cur_dname[32], cur_dcase[8];
 
 static void
 put_bytes(const char *s)
@@ -219,6 +235,158 @@ selfmap(void)
     return c;
 }
 
+
+/* ------------------------------------------------------------------------------------------------------
+ * context tables against the model definition */
+static int
+mdef_ssid(int b, int l, int r, int pos)
+{
+    bin_mdef_t *mdef = d->acmod->mdef;
+    int p = bin_mdef_phone_id_nearest(mdef, b, l, r, pos);
+    return p < 0 ? -1 : (int)bin_mdef_pid2ssid(mdef, p);
+}
+
+/* number of left contexts l with ldiph_lc[b][r][l] != model definition; *fl = first such l */
+static int
+bad_begin(int b, int r, int *fl)
+{
+    int n_ci = bin_mdef_n_ciphone(d->acmod->mdef), l, bad = 0;
+    for (l = 0; l < n_ci; ++l)
+        if ((int)d->d2p->ldiph_lc[b][r][l] != mdef_ssid(b, l, r, WORD_POSN_BEGIN)) {
+            if (!bad++)
+                *fl = l;
+        }
+    return bad;
+}
+
+/* number of right contexts r for which rssid[b][l] does not give the model definition's sequence */
+static int
+bad_end(int b, int l, int *fr)
+{
+    int n_ci = bin_mdef_n_ciphone(d->acmod->mdef), r, bad = 0;
+    xwdssid_t *x = &d->d2p->rssid[b][l];
+    for (r = 0; r < n_ci; ++r) {
+        int got = -2;
+        if (x->n_ssid > 0 && x->ssid && x->cimap && x->cimap[r] >= 0 && x->cimap[r] < x->n_ssid)
+            got = (int)x->ssid[x->cimap[r]];
+        if (got != mdef_ssid(b, l, r, WORD_POSN_END)) {
+            if (!bad++)
+                *fr = r;
+        }
+    }
+    return bad;
+}
+
+static int
+bad_single(int b, int *fl, int *fr)
+{
+    int n_ci = bin_mdef_n_ciphone(d->acmod->mdef), l, r, bad = 0;
+    for (l = 0; l < n_ci; ++l)
+        for (r = 0; r < n_ci; ++r)
+            if ((int)d->d2p->lrdiph_rc[b][l][r] != mdef_ssid(b, l, r, WORD_POSN_SINGLE)) {
+                if (!bad++) {
+                    *fl = l;
+                    *fr = r;
+                }
+            }
+    return bad;
+}
+
+static void
+put_d2p(int wid)
+{
+    dict_t *dict = d->dict;
+    int nb = -1, ne = -1, ns = -1, tb = -1, tl = -1, tr = -1, x = -1, y = -1;
+    if (valid_wid(wid) && dict->word[wid].ciphone != NULL) {
+        int len = dict_pronlen(dict, wid);
+        if (len >= 2) {
+            nb = bad_begin(dict_first_phone(dict, wid), dict_second_phone(dict, wid), &x);
+            if (nb > 0) {
+                tb = dict_first_phone(dict, wid);
+                tl = x;
+                tr = dict_second_phone(dict, wid);
+            }
+            ne = bad_end(dict_last_phone(dict, wid), dict_second_last_phone(dict, wid), &x);
+            if (ne > 0 && tb < 0) {
+                tb = dict_last_phone(dict, wid);
+                tl = dict_second_last_phone(dict, wid);
+                tr = x;
+            }
+        } else if (len == 1) {
+            ns = bad_single(dict_first_phone(dict, wid), &x, &y);
+            if (ns > 0) {
+                tb = dict_first_phone(dict, wid);
+                tl = x;
+                tr = y;
+            }
+        }
+    }
+    fprintf(vt_out, "\"d2p\":[%d,%d,%d,%d,%d,%d],", nb, ne, ns, tb, tl, tr);
+}
+
+/* words of the whole dictionary whose tables disagree with the model definition (one verdict per phone pair) */
+static int
+d2p_bad_words(void)
+{
+    dict_t *dict = d->dict;
+    int n_ci = bin_mdef_n_ciphone(d->acmod->mdef), w, bad = 0, x, y;
+    char *mb = (char *)calloc((size_t)n_ci * n_ci, 1), *me = (char *)calloc((size_t)n_ci * n_ci, 1),
+         *ms = (char *)calloc((size_t)n_ci, 1); /* 0 = not looked at, 1 = agrees, 2 = disagrees */
+    for (w = 0; w < dict_size(dict); ++w) {
+        int len = dict_pronlen(dict, w), wbad = 0;
+        if (dict->word[w].ciphone == NULL || len < 1) {
+            ++bad;
+            continue;
+        }
+        if (len >= 2) {
+            int b = dict_first_phone(dict, w), r = dict_second_phone(dict, w);
+            int e = dict_last_phone(dict, w), l = dict_second_last_phone(dict, w);
+            if (!mb[b * n_ci + r])
+                mb[b * n_ci + r] = bad_begin(b, r, &x) ? 2 : 1;
+            if (!me[e * n_ci + l])
+                me[e * n_ci + l] = bad_end(e, l, &x) ? 2 : 1;
+            wbad = mb[b * n_ci + r] == 2 || me[e * n_ci + l] == 2;
+        } else {
+            int b = dict_first_phone(dict, w);
+            if (!ms[b])
+                ms[b] = bad_single(b, &x, &y) ? 2 : 1;
+            wbad = ms[b] == 2;
+        }
+        bad += wbad;
+    }
+    free(mb);
+    free(me);
+    free(ms);
+    return bad;
+}
+
+/* ------------------------------------------------------------------------------------------------------ */
+static decoder_t *
+make_decoder(const char *dname, const char *dcase, const char *dictfile)
+{
+    char path[4096];
+    config_t *c = config_init(NULL);
+    decoder_t *dec;
+    snprintf(path, sizeof(path), "%s/model/en-us", repo);
+    config_set_str(c, "hmm", path);
+    if (dictfile)
+        config_set_str(c, "dict", dictfile);
+    else if (!strcmp(dname, "turtle")) {
+        snprintf(path, sizeof(path), "%s/tests/data/turtle.dic", repo);
+        config_set_str(c, "dict", path);
+    }
+    config_set_str(c, "loglevel", "FATAL");
+    config_set_str(c, "samprate", "16000");
+    config_set_str(c, "input_endian", "little");
+    config_set_str(c, "bestpath", "no");
+    if (dcase[0] != '-')
+        config_set_str(c, "dictcase", dcase[0] == '1' ? "yes" : "no");
+    config_expand(c);
+    dec = decoder_init(c);
+    err_set_loglevel(ERR_FATAL);
+    return dec;
+}
+
 static void
 emit_header(const char *dname, int dictcase)
 {
@@ -236,6 +404,12 @@ emit_header(const char *dname, int dictcase)
         if (i)
             fputc(',', vt_out);
         vt_str(vt_out, bin_mdef_ciphone_str(mdef, i));
+    }
+    fprintf(vt_out, "],\"phb\":[");
+    for (i = 0; i < bin_mdef_n_ciphone(mdef); ++i) {
+        if (i)
+            fputc(',', vt_out);
+        put_bytes(bin_mdef_ciphone_str(mdef, i));
     }
     fprintf(vt_out, "],\"sp\":[");
     for (i = 1; i <= nsp; ++i) {
@@ -304,6 +478,132 @@ parse_ints(char *p, int *out, int max)
     return n;
 }
 
+/* one utterance of the test audio on decoder dec, everything the public result API says:
+ *   [hf, score, [hypothesis words as byte arrays], [[word bytes, sf, ef, ascr, lscr], ...]]   (all segments) */
+static void
+decode_full(decoder_t *dec, int run, FILE *out)
+{
+    FILE *save = vt_out;
+    const char *hyp;
+    int32 score = 0;
+    seg_iter_t *seg;
+    int first = 1;
+
+    if (run) {
+        load_audio();
+        decoder_start_utt(dec);
+        decoder_process_int16(dec, audio, naudio, FALSE, TRUE);
+        decoder_end_utt(dec);
+    }
+    hyp = decoder_hyp(dec, &score);
+    vt_out = out;
+    fprintf(out, "[%d,%d,", hyp != NULL, hyp ? (int)score : 0);
+    put_split_bytes(hyp, ' ');
+    fprintf(out, ",[");
+    for (seg = decoder_seg_iter(dec); seg; seg = seg_iter_next(seg)) {
+        int sf, ef;
+        int32 ascr, lscr;
+        seg_iter_frames(seg, &sf, &ef);
+        seg_iter_prob(seg, &ascr, &lscr);
+        fprintf(out, "%s[", first ? "" : ",");
+        first = 0;
+        put_bytes(seg_iter_word(seg));
+        fprintf(out, ",%d,%d,%d,%d]", sf, ef, (int)ascr, (int)lscr);
+    }
+    fprintf(out, "]]");
+    vt_out = save;
+}
+
+static int
+file_safe(const char *w)
+{
+    const char *c;
+    if (!w || !*w || !strncmp(w, "##", 2) || !strncmp(w, ";;", 2))
+        return 0;
+    for (c = w; *c; ++c)
+        if (strchr(" \t\r\n\v\f", *c))
+            return 0;
+    return 1;
+}
+
+/* The TWIN: a second decoder, same acoustic model and options, whose dictionary FILE is the file the live
+ * decoder was started with plus one line per word added since (in the order of their ids).  It is given the
+ * same grammar / alignment text and the same audio.  Logged:
+ *   [1, n_file, same, <live result>, <file result>]       result = [ret of the set call, decode_full...]
+ *     n_file  size of the twin's dictionary
+ *     same    number of entries of the LIVE dictionary that the twin has with the same spelling,
+ *             pronunciation and base spelling
+ *   [0]  not run (a word of the sentence is absent / the sentence did not load / a spelling that cannot be
+ *        written on a dictionary line)                                                                     */
+static void
+do_twin(int isjsgf, const char *text, int live_ret)
+{
+    dict_t *dict = d->dict, *fd;
+    bin_mdef_t *mdef = d->acmod->mdef;
+    decoder_t *t;
+    char path[4096], src[4096], buf[65536];
+    FILE *in, *out;
+    size_t n;
+    int w, i, same = 0, rv, last = '\n';
+
+    for (w = n0; w < dict_size(dict); ++w)
+        if (!file_safe(dict_wordstr(dict, w)) || dict->word[w].ciphone == NULL) {
+            fprintf(vt_out, "\"twin\":[0],");
+            return;
+        }
+    if (strcmp(cur_dname, "turtle"))
+        exit(3);
+    snprintf(src, sizeof(src), "%s/tests/data/turtle.dic", repo);
+    snprintf(path, sizeof(path), "%s.twin.dic", tracepath);
+    if ((in = fopen(src, "rb")) == NULL || (out = fopen(path, "wb")) == NULL) {
+        perror("twin dictionary");
+        exit(3);
+    }
+    while ((n = fread(buf, 1, sizeof(buf), in)) > 0) {
+        fwrite(buf, 1, n, out);
+        last = buf[n - 1];
+    }
+    fclose(in);
+    if (last != '\n')
+        fputc('\n', out);
+    for (w = n0; w < dict_size(dict); ++w) {
+        fputs(dict_wordstr(dict, w), out);
+        for (i = 0; i < dict_pronlen(dict, w); ++i)
+            fprintf(out, " %s", bin_mdef_ciphone_str(mdef, dict_pron(dict, w, i)));
+        fputc('\n', out);
+    }
+    fclose(out);
+    t = make_decoder(cur_dname, cur_dcase, path);
+    unlink(path);
+    if (t == NULL) {
+        fprintf(stderr, "decoder_init failed for the twin\n");
+        exit(4);
+    }
+    fd = t->dict;
+    for (w = 0; w < dict_size(dict); ++w) {
+        const char *ws = dict_wordstr(dict, w);
+        int v = ws ? dict_wordid(fd, ws) : BAD_S3WID, ok;
+        if (v == BAD_S3WID || v < 0 || v >= dict_size(fd))
+            continue;
+        ok = !strcmp(ws, dict_wordstr(fd, v)) && dict_pronlen(dict, w) == dict_pronlen(fd, v)
+            && valid_wid(dict_basewid(dict, w)) && dict_basewid(fd, v) >= 0 && dict_basewid(fd, v) < dict_size(fd)
+            && !strcmp(dict_wordstr(dict, dict_basewid(dict, w)), dict_wordstr(fd, dict_basewid(fd, v)));
+        for (i = 0; ok && i < dict_pronlen(dict, w); ++i)
+            ok = dict_pron(dict, w, i) == dict_pron(fd, v, i);
+        same += ok;
+    }
+    fprintf(vt_out, "\"twin\":[1,%d,%d,[%d,", dict_size(fd), same, live_ret);
+    decode_full(d, 0, vt_out); /* (the live decoder has just decoded) */
+    rv = isjsgf ? decoder_set_jsgf_string(t, text) : decoder_set_align_text(t, text);
+    fprintf(vt_out, "],[%d,", rv);
+    if (rv == 0)
+        decode_full(t, 1, vt_out);
+    else
+        fprintf(vt_out, "[0,0,[],[]]");
+    fprintf(vt_out, "]],");
+    decoder_free(t);
+}
+
 static void
 do_use(const char *kind, int *a, int na)
 {
@@ -366,8 +666,12 @@ do_use(const char *kind, int *a, int na)
             put_bytes(w);
         }
         fprintf(vt_out, "],");
+        if (decode == 2)
+            do_twin(isjsgf, text, rv);
+        else
+            fprintf(vt_out, "\"twin\":[],");
     } else
-        fprintf(vt_out, "\"hf\":0,\"hyp\":[],\"seg\":[],");
+        fprintf(vt_out, "\"hf\":0,\"hyp\":[],\"seg\":[],\"twin\":[%s],", decode == 2 ? "0" : "");
     free(text);
     put_obs();
     fprintf(vt_out, "}\n");
@@ -384,6 +688,7 @@ main(int argc, char *argv[])
         return 3;
     }
     repo = argv[2];
+    tracepath = argv[1];
     err_set_loglevel(ERR_FATAL);
     vt_open(argv[1]);
     while (fgets(line, MAXLINE, stdin)) {
@@ -401,32 +706,19 @@ main(int argc, char *argv[])
             while (nsp > 0)
                 free(sp[nsp--]);
         } else if (!strcmp(cmd, "init")) {
-            char dname[32], dcase[8], path[4096];
-            config_t *c;
+            char dname[32], dcase[8];
             if (sscanf(line, "%*s %31s %7s", dname, dcase) != 2)
+                return 3;
+            if (strcmp(dname, "turtle") && strcmp(dname, "model"))
                 return 3;
             if (d)
                 decoder_free(d);
-            c = config_init(NULL);
-            snprintf(path, sizeof(path), "%s/model/en-us", repo);
-            config_set_str(c, "hmm", path);
-            if (!strcmp(dname, "turtle")) {
-                snprintf(path, sizeof(path), "%s/tests/data/turtle.dic", repo);
-                config_set_str(c, "dict", path);
-            } else if (strcmp(dname, "model"))
-                return 3;
-            config_set_str(c, "loglevel", "FATAL");
-            config_set_str(c, "samprate", "16000");
-            config_set_str(c, "input_endian", "little");
-            config_set_str(c, "bestpath", "no");
-            if (dcase[0] != '-')
-                config_set_str(c, "dictcase", dcase[0] == '1' ? "yes" : "no");
-            config_expand(c);
-            if ((d = decoder_init(c)) == NULL) {
+            strcpy(cur_dname, dname);
+            strcpy(cur_dcase, dcase);
+            if ((d = make_decoder(dname, dcase, NULL)) == NULL) {
                 fprintf(stderr, "decoder_init failed\n");
                 return 4;
             }
-            err_set_loglevel(ERR_FATAL);
             free(watch);
             watch = NULL;
             nwatch = 0;
@@ -450,7 +742,9 @@ main(int argc, char *argv[])
             phones = vt_unhex(arg, NULL);
             free(arg);
             rv = decoder_add_word(d, sp[sid], phones, u);
-            fprintf(vt_out, "{\"e\":\"Add\",\"s\":%d,\"u\":%d,\"slen\":%d,\"toks\":[", sid, u, (int)strlen(phones));
+            fprintf(vt_out, "{\"e\":\"Add\",\"s\":%d,\"u\":%d,\"slen\":%d,\"raw\":", sid, u, (int)strlen(phones));
+            put_bytes(phones);
+            fprintf(vt_out, ",\"toks\":[");
             copy = strdup(phones);
             for (tok = strtok(copy, " \t\r\n"); tok; tok = strtok(NULL, " \t\r\n")) {
                 if (!first)
@@ -461,6 +755,7 @@ main(int argc, char *argv[])
             free(copy);
             free(phones);
             fprintf(vt_out, "],\"ret\":%d,\"srch\":%d,", rv, d->search != NULL);
+            put_d2p(rv);
             put_obs();
             fprintf(vt_out, "}\n");
         } else if (!strcmp(cmd, "check")) {
@@ -472,8 +767,8 @@ main(int argc, char *argv[])
         } else if (!strcmp(cmd, "scan")) {
             if (!d)
                 return 3;
-            fprintf(vt_out, "{\"e\":\"Scan\",\"n\":%d,\"selfmap\":%d,\"presum\":%d}\n", dict_size(d->dict), selfmap(),
-                    presum());
+            fprintf(vt_out, "{\"e\":\"Scan\",\"n\":%d,\"selfmap\":%d,\"presum\":%d,\"d2pbad\":%d}\n", dict_size(d->dict),
+                    selfmap(), presum(), d2p_bad_words());
         } else if (!strcmp(cmd, "jsgf") || !strcmp(cmd, "align")) {
             int n = parse_ints(line + strlen(cmd) + 1, ints, MAXSP), i;
             if (n < 3 || !d)
